@@ -33,7 +33,7 @@ HARNESSES = {
     "h_terms": ("h_terms.cc", ["asan", "rel"]),
     "h_tsolver": ("h_tsolver.cc", ["rel", "asan"]),
     "h_intround": ("h_intround.cc", ["asan"]),
-    "h_threads": ("h_threads.cc", ["tsan", "asan"]),
+    "h_threads": ("h_threads.cc", ["tsan", "asan", "rel"]),
     "h_stop": ("h_stop.cc", ["tsan", "rel"]),
     "chunkwriter": ("chunkwriter.cc", ["rel"]),
 }
